@@ -94,7 +94,7 @@ func genCmds(r *rand.Rand, ncands int) []CmdIn {
 	for k := 0; k < n; k++ {
 		perm := r.Perm(ncands)
 		m := 1 + r.IntN(ncands)
-		if r.Float64() < 0.5 {
+		if r.Float64() < 0.4 {
 			m = 1
 		}
 		cmds = append(cmds, CmdIn{Cands: append([]int{}, perm[:m]...), Repls: pickInt(r, 0, 1, 1, 1, 2, 2, 3)})
@@ -119,6 +119,7 @@ func genProtocol(r *rand.Rand, t core.Tier) any {
 	started := []int{}
 	now, lastStart := int64(0), int64(-1)
 	pEnvGood := 0.3 + 0.6*r.Float64() // how cooperative the replacements are
+	allowGone := r.Float64() < 0.45
 	for len(in.Steps) < n {
 		x := r.Float64()
 		anyCmd := func() int {
@@ -153,7 +154,41 @@ func genProtocol(r *rand.Rand, t core.Tier) any {
 				op = "vanishStale"
 			}
 			in.Steps = append(in.Steps, StepIn{Op: op, Cmd: k, Repl: r.IntN(in.Cmds[k].Repls)})
-		case x < 0.78:
+		case x < 0.70:
+			// a candidate goes away on its own (in 45% of the histories; mostly a candidate of an action that has been
+			// started, so that the completing pass meets it)
+			if !allowGone || len(started) == 0 && r.Float64() < 0.7 {
+				continue
+			}
+			c := r.IntN(in.NCands)
+			if len(started) > 0 && r.Float64() < 0.8 {
+				k := started[r.IntN(len(started))]
+				cs := in.Cmds[k].Cands
+				c = cs[r.IntN(len(cs))]
+				if len(cs) > 1 && r.Float64() < 0.5 {
+					c = cs[r.IntN(len(cs)-1)] // not the last of the command's list
+				}
+				in.Steps = append(in.Steps, StepIn{Op: "candGone", Cand: c})
+				// half of the time the action is completed soon afterwards: it fails (a replacement disappears, or the
+				// retry window passes while a replacement stalls) or its replacements become ready
+				if y := r.Float64(); y < 0.5 && in.Cmds[k].Repls > 0 {
+					switch i := r.IntN(in.Cmds[k].Repls); {
+					case y < 0.2:
+						in.Steps = append(in.Steps, StepIn{Op: "vanish", Cmd: k, Repl: i})
+					case y < 0.3:
+						in.Steps = append(in.Steps, StepIn{Op: "launch", Cmd: k, Repl: i}, StepIn{Op: "advance", Ns: minRetry + 1})
+						now += minRetry + 1
+					default:
+						for j := 0; j < in.Cmds[k].Repls; j++ {
+							in.Steps = append(in.Steps, StepIn{Op: "init", Cmd: k, Repl: j})
+						}
+					}
+					in.Steps = append(in.Steps, StepIn{Op: "reconcile", Cmd: k, On: r.IntN(len(cs))})
+				}
+				continue
+			}
+			in.Steps = append(in.Steps, StepIn{Op: "candGone", Cand: c})
+		case x < 0.80:
 			var d int64
 			switch y := r.Float64(); {
 			case y < 0.35 && lastStart >= 0:
@@ -170,7 +205,7 @@ func genProtocol(r *rand.Rand, t core.Tier) any {
 			}
 			now += d
 			in.Steps = append(in.Steps, StepIn{Op: "advance", Ns: d})
-		case x < 0.90:
+		case x < 0.91:
 			in.Steps = append(in.Steps, StepIn{Op: "cleanup"})
 		case x < 0.95:
 			in.Steps = append(in.Steps, StepIn{Op: "sync"})
@@ -271,6 +306,8 @@ func baseScripts() []script {
 	rec := func(k int) StepIn { return StepIn{Op: "reconcile", Cmd: k} }
 	env := func(op string, k, i int) StepIn { return StepIn{Op: op, Cmd: k, Repl: i} }
 	adv := func(ns int64) StepIn { return StepIn{Op: "advance", Ns: ns} }
+	recOn := func(k, on int) StepIn { return StepIn{Op: "reconcile", Cmd: k, On: on} }
+	gone := func(c int) StepIn { return StepIn{Op: "candGone", Cand: c} }
 	cl := StepIn{Op: "cleanup"}
 	mk := func(name string, ncands int, cmds []CmdIn, steps ...StepIn) script {
 		return script{name, In{NCands: ncands, MissingPools: []int{}, Cmds: cmds, Steps: steps, Faults: []FaultIn{}, RetrySteps: RetrySteps()}}
@@ -287,6 +324,14 @@ func baseScripts() []script {
 		mk("ready-just-inside-window", 1, one, st(0, true), adv(minRetry), env("init", 0, 0), rec(0), cl),
 		mk("two-actions-one-node", 2, []CmdIn{{Cands: []int{0}, Repls: 1}, {Cands: []int{0, 1}, Repls: 1}}, st(0, true), st(1, false), env("init", 0, 0), rec(1), rec(0), cl),
 		mk("second-action-after-failure", 1, []CmdIn{{Cands: []int{0}, Repls: 1}, {Cands: []int{0}, Repls: 1}}, st(0, true), env("vanish", 0, 0), rec(0), st(1, true), env("init", 1, 0), rec(1), cl),
+		// candidates that go away on their own while their action is in flight (first / middle / last of the command's
+		// list), then the action fails (replacement gone; timeout) or succeeds; a later action over the remaining nodes
+		mk("cand-gone-then-replacement-gone", 3, []CmdIn{{Cands: []int{0, 1, 2}, Repls: 1}, {Cands: []int{2, 0}, Repls: 0}},
+			st(0, true), rec(0), gone(1), env("vanish", 0, 0), recOn(0, 1), cl, st(1, true), rec(1), cl),
+		mk("first-cand-gone-then-timeout", 2, []CmdIn{{Cands: []int{1, 0}, Repls: 1}},
+			st(0, true), gone(1), env("launch", 0, 0), adv(minRetry+1), recOn(0, 1), cl),
+		mk("cand-gone-then-ready", 3, []CmdIn{{Cands: []int{2, 0, 1}, Repls: 1}, {Cands: []int{0}, Repls: 0}},
+			st(0, false), gone(0), gone(1), env("init", 0, 0), rec(0), cl, st(1, true)),
 	}
 }
 
@@ -513,6 +558,39 @@ func labels(raw json.RawMessage, impl any) []string {
 		if len(o.Deletes) > 0 {
 			add("delete-issued")
 		}
+		if s.Op == "candGone" && o.Res == "ok" && s.Cand < len(o.Cands) && o.Cands[s.Cand].Owner >= 0 {
+			add("cand-gone-in-flight")
+		}
+		// a completing pass of an action one of whose candidates has gone away; "…not-last": some candidate listed after
+		// the gone one still exists (the pass has to move on past an id the cluster state does not know)
+		if s.Op == "reconcile" && i > 0 && (o.Res == "failed" || o.Res == "succeeded") && s.Cmd < len(in.Cmds) {
+			prev := out.Steps[i-1].Cands
+			cs := in.Cmds[s.Cmd].Cands
+			on := s.On
+			if on < 0 || on >= len(cs) {
+				on = 0
+			}
+			if cs[on] < len(prev) && prev[cs[on]].Owner >= 0 && prev[cs[on]].Owner < len(in.Cmds) {
+				k := prev[cs[on]].Owner
+				seenGone, notLast := false, false
+				for _, c := range in.Cmds[k].Cands {
+					if c >= len(prev) || prev[c].Owner != k {
+						continue
+					}
+					if prev[c].Gone {
+						seenGone = true
+					} else if seenGone {
+						notLast = true
+					}
+				}
+				if seenGone {
+					add(o.Res + "-with-cand-gone")
+				}
+				if notLast {
+					add(o.Res + "-with-cand-gone-not-last")
+				}
+			}
+		}
 	}
 	return l
 }
@@ -589,12 +667,12 @@ func Ops() []*core.Op {
 		}
 	}
 	faults := protoOp("c08.faults",
-		"disruption.Queue (StartCommand, Reconcile/waitOrTerminate, CompleteCommand) + Controller.Reconcile cleanup + state.Cluster marks on the fake client: ten base scripts, each fault-free, with EVERY call of the fault-free run failing (once / through the whole retry loop; NotFound / other error), and with a process restart between any two steps; thorough: all fault pairs",
+		"disruption.Queue (StartCommand, Reconcile/waitOrTerminate, CompleteCommand) + Controller.Reconcile cleanup + state.Cluster marks on the fake client: thirteen base scripts (three with candidates whose Node and NodeClaim go away while their action is in flight), each fault-free, with EVERY call of the fault-free run failing (once / through the whole retry loop; NotFound / other error), and with a process restart between any two steps; thorough: all fault pairs",
 		"systematic enumeration; non-trivial = an action with >= 1 replacement was started; distinct = distinct (script, fault vector, restart point)")
 	faults.Enum = enumFaults
 	faults.ExhaustiveNote = "every single-fault position of every base script x {once, whole retry loop} x {NotFound, other}; restart at every step boundary; restart right after the step of every persistent fault; thorough: + all pairs with one transient fault"
 	protocol := protoOp("c08.protocol",
-		"the same real components driven by random histories: 1-3 actions over 1-4 candidates (shared candidates, via NewCandidate or direct), replacements launching / initializing / vanishing (fresh or stale cluster state) in any order, clock aimed at the retry-window edge (-1 ns, 0, +1 ns), cleanup passes, informer syncs, restarts, 0-3 injected API faults, missing NodePools",
+		"the same real components driven by random histories: 1-3 actions over 1-4 candidates (shared candidates, via NewCandidate or direct), replacements launching / initializing / vanishing (fresh or stale cluster state) in any order, candidates going away on their own (Node + NodeClaim removed from the API and the cluster state, ~5% of the steps, mostly candidates of an action in flight), clock aimed at the retry-window edge (-1 ns, 0, +1 ns), cleanup passes, informer syncs, restarts, 0-3 injected API faults, missing NodePools",
 		"random histories (4..28 steps quick, 4..64 thorough); non-trivial = an action with >= 1 replacement was started")
 	protocol.Gen = genProtocol
 	protocol.N = func(t core.Tier) int {
